@@ -124,7 +124,7 @@ var c07InsertPool = []string{"(", ")", "[", "]", "{", "}", ",", ";", ".", "::", 
 	`"s"`, `""`, `"a*b"`, `"\*"`, `"\n"`, `"\u{1F600}"`}
 
 func runC07(c *vh.Ctx) {
-	c.Res.Rule = "(a) generated policy ASTs (every (parent kind, operand position, child kind) pairing over 36 node kinds, random trees depth<=5, all scope/annotation forms, negative literals, keyword/empty/non-identifier attribute names, strings over every escape class) x {renderMin, renderFull} x {single-space, pseudo-random whitespace+comments} rendered by the Lean model: Go UnmarshalCedar must return the generating AST (vh.EncPolicy JSON); (b) Lean model parser on Go's tokens vs Go's parser (AST incl. position, or both reject) on those texts, on token-level mutations of them and on every rejected form named in the property; (c) escape classes of all 1,114,112 code points, EscapeString/Unquote/ParsePattern on generated strings; distinct = distinct text; non-trivial = a condition containing an operator / a mutated or rejected text"
+	c.Res.Rule = "(a) generated policy ASTs (every (parent kind, operand position, child kind) pairing over 36 node kinds, random trees depth<=5, all scope/annotation forms, negative literals, keyword/empty/non-identifier attribute names, strings over every escape class) x {renderMin, renderFull} x {single-space, pseudo-random whitespace+comments} rendered by the Lean model: Go UnmarshalCedar must return the generating AST (vh.EncPolicy JSON); (b) Lean model parser on Go's tokens vs Go's parser (AST incl. position, or both reject) on those texts, on token-level mutations of them and on every rejected form named in the property; (b') the composed MODEL pipeline bytes -> model lexer (C18) -> model parser (op parse-bytes; theorems C07_lex_layout, C07_parse_text_roundtrip_partial, C18_stream_parse_eq_bytes_parse) vs Go's UnmarshalCedar / NewPolicyListFromBytes on the same bytes, scanner-rejected texts included; (c) escape classes of all 1,114,112 code points, EscapeString/Unquote/ParsePattern on generated strings; distinct = distinct text; non-trivial = a condition containing an operator / a mutated or rejected text"
 	sg := &vh.SynGen{R: c.Rng}
 
 	// ---------- (a) generate ASTs, let the model render them ----------
@@ -227,6 +227,15 @@ func runC07(c *vh.Ctx) {
 
 	b2 := &vh.Batch{} // (b): parse-tokens lines
 	addParse := func(text []byte, tag string, list bool) {
+		// composed model pipeline on the BYTES (model lexer + model parser): C07_parse_text_roundtrip_partial,
+		// C18_stream_parse_eq_bytes_parse; also exercised on texts the scanner rejects (both sides "err")
+		{
+			implB, _ := goParse(text)
+			if list {
+				implB = goParseList(text)
+			}
+			b2.Add("parse-bytes", map[string]any{"text": hex.EncodeToString(text), "list": list}, implB, tag+"/bytes")
+		}
 		toks, err := verifhooks.C0708Tokenize(text)
 		if err != nil {
 			c.Dist("scanner-rejects:" + tag)
